@@ -117,3 +117,37 @@ package deps
 //@ ghostvar connCloses int
 //@ func builtin.close(ch ref)
 //@   requires quiet: connClosed
+
+//@ # ---- client-side model of a store-backed resource (C10): the gateway applies remove/add events to
+//@ # the collection it holds; cllen is its current length. An index outside the collection is a
+//@ # protocol error, hence the preconditions.
+//@ ghostvar cllen int
+//@ trusted func (r res.Resource) RemoveEvent(idx int)
+//@   requires inrange: 0 <= idx && idx < cllen
+//@   modifies ghost.cllen
+//@   ensures cllen == old(cllen) - 1
+//@ trusted func (r res.Resource) AddEvent(v interface{}, idx int)
+//@   requires inrange: 0 <= idx && idx <= cllen
+//@   modifies ghost.cllen
+//@   ensures cllen == old(cllen) + 1
+//@ trusted func (r res.Resource) ChangeEvent(props map[string]interface{})
+//@   ensures true
+//@ trusted func (r res.Resource) CreateEvent(v interface{})
+//@   ensures true
+//@ trusted func (r res.Resource) DeleteEvent()
+//@   ensures true
+
+//@ # json.Unmarshal into a []store.Value held by the store handler: collections have fewer than 2^30 elements (T3)
+//@ trusted func json.UnmarshalValues(data []byte, v interface{}) (err error)
+//@   modifies *v, alloc
+//@   ensures imp(!isNil(err), !typeIs(err, "*res.Error"))
+//@   ensures small: imp(typeIs(v, "*[]store.Value"), len(*ptrOf(v, "*[]store.Value")) <= 1073741824)
+
+//@ # store.Transformer implementations are client code: results are arbitrary, nothing of the handler changes
+//@ trusted func (t store.Transformer) Transform(id string, v interface{}) (out interface{}, err error)
+//@   modifies alloc
+//@   ensures small: imp(typeIs(out, "[]store.Value"), len(unbox(out, "[]store.Value")) <= 1073741824)
+//@ trusted func (t store.Transformer) IDToRID(id string, v interface{}, p res.Pattern) (rid string)
+//@   ensures true
+//@ trusted func (t store.Transformer) RIDToID(rid string, pathParams map[string]string) (id string)
+//@   ensures true
